@@ -179,7 +179,7 @@ def gen_cases(ctx):
         for k in [1, P, P + 3]:
             cases.append({"T": T, "n": None, "stop_after": k, "seed": rng.randrange(1 << 30), "reuse": True})
     # many worker threads (more cores than any fixed cap an implementation might have): full passes, an early exit, a failure
-    for T in ([33, 48] if not ctx.thorough else [17, 33, 48, 65]):
+    for T in ([33, 67, 96] if not ctx.thorough else [17, 33, 48, 65, 67, 130]):      # (beyond 64: no fixed cap on queued inputs / sentinels may be smaller than the thread count)
         for n in (0, 1, 2 * T + 3):
             cases.append({"T": T, "n": n, "seed": rng.randrange(1 << 30), "reuse": n == 1})
         cases.append({"T": T, "n": 3 * T, "stop_after": 2, "seed": rng.randrange(1 << 30), "reuse": False})
